@@ -130,6 +130,8 @@ hkl_spec = st.one_of(
 
 def check_poles(case):
     A = gen.orientations(case["tex"])
+    if case["upper"]:
+        A = np.asfortranarray(A)  # same values, Fortran memory order
     hkl = case["hkl"]
     ra = case["ref_axes"]
     ra_in = ra.upper() if case["upper"] else ra
